@@ -9,6 +9,8 @@ Two correspondence streams against Model/PointAlg.v:
              (vp/props/c18_isoref.py).
 """
 import itertools
+import json
+import re
 
 from vp.core import Stream
 from vp import coqfmt as q
@@ -28,8 +30,12 @@ ASSUMES = [
     "but their hashes differ: outside the property's domain, recorded as an observation)",
     "datetime add/sub round trip is claimed for fixed-length intervals that are multiples of the cycle point format's "
     "resolution (default CCYYMMDDThhmm drops seconds: (p + PT30S) - PT30S != p; observation, see c18 datetime 'offgrid')",
-    "one cycle point configuration per process (module-level lru_caches in iso8601.py are not keyed by time zone; the "
-    "harness clears them when it switches configuration)",
+    "streams integer/datetime: one cycle point configuration per process (the harness clears iso8601's lru_caches when it "
+    "switches configuration); stream reinit: several configurations in one process, nothing cleared inside a scenario",
+    "reinit: under a cycle point format without time zone designator, standardise/add/subtract are exercised on "
+    "designator-less strings only (the dumper drops the zone of a point written with another designator without "
+    "converting it: observation), compare on all spellings; days <= 28 (point_parse is not keyed on the calendar, so a "
+    "date valid only in the earlier calendar is accepted after re-init: observation); the lru_cache size (10000) is not reached",
 ]
 
 CMPNAMES = ["cmp", "eq", "ne", "lt", "le", "gt", "ge", "hash_eq"]
@@ -722,7 +728,283 @@ class DatetimeStream(Stream):
         return f"datetime:{c['op']}:{c['cfg']['cal']}:{'exc' if 'exc' in r else 'value'}"
 
 
-STREAMS = [IntegerStream(), DatetimeStream()]
+# ---------------------------------------------------------------------------
+# re-initialisation stream: several configurations in ONE process
+# ---------------------------------------------------------------------------
+SIG_STALE = "reinit:stale-op-cache:keyed-on-calendar-only"
+RTZS = ["Z", "+05", "+0530", "-0800", "+01", "-0330"]
+RKIND = {"cmp": 0, "add": 1, "sub": 2}
+
+
+def _cfg_core(cfg):
+    """what the lru_cache keys of ISO8601Point's cached functions do NOT contain"""
+    return (cfg["tz"], bool(cfg.get("nodesig")), cfg["xdigits"])
+
+
+def _rpoint(rng, cfg, z, desig):
+    """write instant z (of calendar cfg.cal) in basic format; desig None = no designator
+    (then the string denotes z only under cfg's own time zone)"""
+    tz = cfg["tz"] if desig is None else desig
+    y, mo, d, h, mi, s = R.fields(cfg["cal"], z, tz)
+    return f"{R.fmt_year(y, cfg['xdigits'])}{mo:02d}{d:02d}T{h:02d}{mi:02d}" + ("" if desig is None else desig)
+
+
+def _pinfo(string, cfg):
+    """fields of a generated point string: (y, mo, d, h, mi, designator or None)"""
+    m = re.fullmatch(r"([+-]\d{5,}|\d{4})(\d\d)(\d\d)T(\d\d)(\d\d)(Z|[+-]\d\d(?:\d\d)?)?", string)
+    return int(m.group(1)), int(m.group(2)), int(m.group(3)), int(m.group(4)), int(m.group(5)), m.group(6)
+
+
+def _rinst(string, cfg):
+    y, mo, d, h, mi, tz = _pinfo(string, cfg)
+    if d > R.days_in_month(cfg["cal"], y, mo):
+        return None
+    return R.instant(cfg["cal"], y, mo, d, h, mi, 0, tz or cfg["tz"])
+
+
+class ReinitStream(Stream):
+    name = "reinit"
+    coq_import = "From Cylc Require Import Model.PointAlg."
+    check_fn = "PointAlg.check_rcase"
+    show_fn = "PointAlg.rmodel_out"
+    n_hashseeds = 3
+    shard_size = 100
+    rule = ("one process, iso8601.init() under configuration A (time zone, cycle point format with or without time zone "
+            "designator, expanded year digits, calendar), then standardise/compare/add/subtract on generated points, "
+            "re-init under B (sometimes back to A) and repeat on the same keys, on previously parsed strings in new pairings and "
+            "on fresh strings; expected values per configuration from the independent calendar; the Coq model carries the "
+            "lru_caches of ISO8601Point keyed as in the code; non-trivial = at least two different configurations")
+
+    def corpus(self):
+        f = {"cal": "gregorian", "xdigits": 0, "nodesig": True}
+        a, b = {**f, "tz": "+05"}, {**f, "tz": "Z"}
+        loc = ["20000101T0000", "20000101T0300", "20000102T1200"]
+        oth = ["19991231T2200Z", "20000101T0000Z", "20000101T0100Z", "20000101T0600+05"]
+        return [
+            # the seeded scenario: parse under +05 only, then compare fresh pairs under Z
+            {"configs": [a, b], "ivs": {},
+             "phases": [[{"op": "std", "a": x} for x in loc],
+                        [{"op": "cmp", "a": x, "b": y} for x in loc + oth for y in loc + oth if x != y]]},
+            # witness of the stale-cache finding: the same pair compared under both configurations
+            {"configs": [a, b], "ivs": {},
+             "phases": [[{"op": "cmp", "a": "20000101T0000Z", "b": "20000101T0000"}],
+                        [{"op": "cmp", "a": "20000101T0000Z", "b": "20000101T0000"}]], "kind": "same-key"},
+            # ... and the same addition under two time zones (default formats)
+            {"configs": [{"cal": "gregorian", "xdigits": 0, "tz": "Z"}, {"cal": "gregorian", "xdigits": 0, "tz": "+05"}],
+             "ivs": {"PT1H": 3600},
+             "phases": [[{"op": "add", "a": "20000101T0000Z", "b": "PT1H"}],
+                        [{"op": "add", "a": "20000101T0000Z", "b": "PT1H"}]], "kind": "same-key"},
+        ]
+
+    def _gen_case(self, rng):
+        xd = rng.choice([0, 0, 0, 2])
+        mode = rng.randrange(10)
+        cal = rng.choice(R.CALENDARS)
+        tzs = rng.sample(RTZS, 3)
+        if mode < 5:          # same designator-less format, different time zones
+            cfgs = [{"cal": cal, "tz": tzs[0], "xdigits": xd, "nodesig": True},
+                    {"cal": cal, "tz": tzs[1], "xdigits": xd, "nodesig": True}]
+        elif mode < 7:        # default formats, different time zones
+            cfgs = [{"cal": cal, "tz": tzs[0], "xdigits": xd}, {"cal": cal, "tz": tzs[1], "xdigits": xd}]
+        elif mode < 9:        # with / without designator, maybe another calendar
+            cfgs = [{"cal": cal, "tz": tzs[0], "xdigits": xd, **({"nodesig": True} if rng.random() < 0.5 else {})},
+                    {"cal": rng.choice([cal, cal, rng.choice(R.CALENDARS)]), "tz": rng.choice(tzs[:2]), "xdigits": xd,
+                     **({"nodesig": True} if rng.random() < 0.5 else {})}]
+        else:                 # only the calendar changes (it IS in the cache keys)
+            cfgs = [{"cal": cal, "tz": tzs[0], "xdigits": xd}, {"cal": rng.choice(R.CALENDARS), "tz": tzs[0], "xdigits": xd}]
+        if rng.random() < 0.35:
+            cfgs.append(dict(cfgs[0]) if rng.random() < 0.6 else {"cal": cal, "tz": tzs[2], "xdigits": xd, "nodesig": True})
+        # a pool of points close to each other, days <= 28 (valid in every calendar)
+        y = rng.choice([2000, rng.randint(1000, 9000)]) if not xd else rng.choice([2000, 12000, -50])
+        base = R.instant("gregorian", y, rng.randint(1, 12), rng.randint(2, 27), rng.randint(0, 23), rng.choice([0, 30]), 0, "Z")
+        locs, oths = [], []
+        for _ in range(rng.randint(2, 4)):
+            z = base + rng.choice([0, 0, 3600, -3600, 5 * 3600, 19800, -8 * 3600, rng.randint(-2000, 2000) * 60])
+            c0 = {"cal": "gregorian", "tz": rng.choice([c["tz"] for c in cfgs]), "xdigits": xd}
+            s = _rpoint(rng, c0, z, None)
+            y_, mo_, d_, *_ = _pinfo(s, c0)
+            if d_ <= 28 and s not in locs:
+                locs.append(s)
+        for _ in range(rng.randint(2, 4)):
+            z = base + rng.choice([0, 0, 3600, -3600, 5 * 3600, 19800, rng.randint(-2000, 2000) * 60])
+            s = _rpoint(rng, {"cal": "gregorian", "tz": "Z", "xdigits": xd}, z, rng.choice(RTZS))
+            if _pinfo(s, None)[2] <= 28 and s not in oths:
+                oths.append(s)
+        ivs = {}
+        for _ in range(2):
+            i, d = _duration(rng, {})
+            ivs[i] = d
+        allp = locs + oths
+        phases, seen_pairs = [], set()
+        for k, cfg in enumerate(cfgs):
+            steps = []
+            arith_pool = locs if cfg.get("nodesig") else allp     # see ASSUMES
+            if k == 0 and rng.random() < 0.7:
+                steps += [{"op": "std", "a": x} for x in locs]    # what loading a workflow does
+            for _ in range(rng.randint(3, 9)):
+                r = rng.random()
+                if r < 0.55 and len(allp) >= 2:
+                    if k > 0 and seen_pairs and rng.random() < 0.3:
+                        a_, b_ = rng.choice(sorted(seen_pairs))   # same key again
+                    else:
+                        a_, b_ = rng.sample(allp, 2)
+                    steps.append({"op": "cmp", "a": a_, "b": b_})
+                    seen_pairs.add((a_, b_))
+                elif r < 0.7 and arith_pool:
+                    steps.append({"op": "std", "a": rng.choice(arith_pool)})
+                elif arith_pool:
+                    steps.append({"op": rng.choice(["add", "sub"]), "a": rng.choice(arith_pool), "b": rng.choice(sorted(ivs))})
+            phases.append(steps)
+        return {"configs": cfgs, "ivs": ivs, "phases": phases}
+
+    def gen(self, rng, tier):
+        return [self._gen_case(rng) for _ in range(220 if tier == "quick" else 6000)]
+
+    def impl(self, cases):
+        from cylc.flow.cycling import iso8601
+        from cylc.flow.cycling.iso8601 import ISO8601Point as P, ISO8601Interval as I, init
+        out = []
+        for c in cases:
+            # each case starts like a fresh process; nothing is cleared inside a case
+            for obj in (iso8601, P, I):
+                for n in dir(obj):
+                    f = getattr(obj, n, None)
+                    if hasattr(f, "cache_clear"):
+                        f.cache_clear()
+            res = []
+            for cfg, steps in zip(c["configs"], c["phases"]):
+                fmtstr = None
+                if cfg.get("nodesig"):
+                    fmtstr = ("+X" if cfg["xdigits"] else "") + "CCYYMMDDThhmm"
+                init(num_expanded_year_digits=cfg["xdigits"], custom_dump_format=fmtstr,
+                     time_zone=cfg["tz"], cycling_mode=cfg["cal"])
+                ph = []
+                for st in steps:
+                    try:
+                        if st["op"] == "cmp":
+                            a, b = P(st["a"]), P(st["b"])
+                            ph.append({"cmp": a.__cmp__(b), "eq": bool(a == b), "lt": bool(a < b), "gt": bool(a > b)})
+                        elif st["op"] == "std":
+                            ph.append({"s": str(P(st["a"]).standardise())})
+                        elif st["op"] == "add":
+                            ph.append({"s": str(P(st["a"]) + I(st["b"]))})
+                        else:
+                            ph.append({"s": str(P(st["a"]) - I(st["b"]))})
+                    except Exception as e:  # noqa
+                        ph.append({"exc": _errname(e, iso=True), "msg": f"{type(e).__name__}: {e}"[:160]})
+                res.append(ph)
+            out.append({"phases": res})
+        return out
+
+    # expected answer of one step under the configuration in force (independent calendar)
+    def _want(self, c, cfg, st):
+        res = R.resolution(cfg)
+        if st["op"] == "cmp":
+            if st["a"] == st["b"]:
+                return ("cmp", 0)
+            za, zb = _rinst(st["a"], cfg), _rinst(st["b"], cfg)
+            return ("cmp", _sgn(za, zb))
+        z = _rinst(st["a"], cfg)
+        if st["op"] == "add":
+            z += c["ivs"][st["b"]]
+        elif st["op"] == "sub":
+            z -= c["ivs"][st["b"]]
+        return ("s", R.fmt_point(cfg, z - z % res))
+
+    def _walk(self, c, r):
+        """-> list of (phase, index, cfg, step, got, want, key seen earlier under another non-calendar configuration)"""
+        seen = {}
+        rows = []
+        for k, (cfg, steps, outs) in enumerate(zip(c["configs"], c["phases"], r["phases"])):
+            for j, (st, o) in enumerate(zip(steps, outs)):
+                want = self._want(c, cfg, st)
+                got = ("exc", o["exc"]) if "exc" in o else ("cmp", o["cmp"]) if "cmp" in o else ("s", o["s"])
+                stale = False
+                if st["op"] in RKIND and st["a"] != st.get("b"):
+                    key = (st["op"], st["a"], st["b"], cfg["cal"])
+                    stale = any(core != _cfg_core(cfg) for core in seen.get(key, ()))
+                    if "exc" not in o:
+                        seen.setdefault(key, set()).add(_cfg_core(cfg))
+                rows.append((k, j, cfg, st, o, got, want, stale))
+        return rows
+
+    def oracle(self, c, r):
+        fresh, stale = None, None
+        for k, j, cfg, st, o, got, want, was_seen in self._walk(c, r):
+            msg = None
+            if got != want:
+                msg = (f"configuration #{k} {cfg}: {st} gives {o}, expected {want} under this configuration"
+                       f" (earlier configurations: {c['configs'][:k]})")
+            elif "cmp" in o and (o["eq"], o["lt"], o["gt"]) != (o["cmp"] == 0, o["cmp"] == -1, o["cmp"] == 1):
+                msg = f"configuration #{k}: {st}: ==,<,> {o} inconsistent with __cmp__"
+            if msg:
+                if was_seen:
+                    stale = stale or "[same operands already evaluated under another configuration] " + msg
+                else:
+                    fresh = fresh or msg
+        return fresh or stale
+
+    def classify(self, c, r, failure):
+        if failure.startswith("[same operands already evaluated"):
+            return SIG_STALE
+        m = re.search(r"'op': '(\w+)'", failure)
+        return f"reinit:{m.group(1) if m else 'other'}:first-evaluation-after-reinit"
+
+    def coq_case(self, c, r):
+        strs = sorted({st["a"] for ph in c["phases"] for st in ph} |
+                      {st["b"] for ph in c["phases"] for st in ph if st["op"] == "cmp"})
+        cfgs = []
+        for cfg, steps in zip(c["configs"], c["phases"]):
+            res = R.resolution(cfg)
+            inst = {s_: _rinst(s_, cfg) for s_ in strs}
+            fmt = {}
+            for st in steps:
+                if st["op"] == "cmp":
+                    continue
+                z = inst[st["a"]]
+                if z is None:
+                    continue
+                z += {"add": 1, "sub": -1, "std": 0}[st["op"]] * c["ivs"].get(st.get("b"), 0)
+                z -= z % res
+                try:
+                    fmt[z] = R.fmt_point(cfg, z)
+                except ValueError:
+                    return None
+            cfgs.append(q.crecord(
+                rc_cal=q.cz(R.CALENDARS.index(cfg["cal"])),
+                rc_inst=q.clist(q.cpair(q.cstr(s_), q.copt(z, q.cz)) for s_, z in sorted(inst.items())),
+                rc_fmt=q.clist(q.cpair(q.cz(z), q.cstr(s_)) for z, s_ in sorted(fmt.items())),
+                rc_resol=q.cz(res)))
+        steps, impl = [], []
+        ctor = {"cmp": "RCmp", "add": "RAdd", "sub": "RSub"}
+        for k, (ph, outs) in enumerate(zip(c["phases"], r["phases"])):
+            for st, o in zip(ph, outs):
+                op = f"(RStd {q.cstr(st['a'])})" if st["op"] == "std" else \
+                    f"({ctor[st['op']]} {q.cstr(st['a'])} {q.cstr(st['b'])})"
+                steps.append(q.cpair(q.cnat(k), op))
+                if "exc" in o:
+                    impl.append(f"(ROErr {o['exc']})")
+                elif "cmp" in o:
+                    impl.append("(ROCmp %s)" % {-1: "Lt", 0: "Eq", 1: "Gt"}[o["cmp"]])
+                else:
+                    impl.append(f"(ROStr {q.cstr(o['s'])})")
+        return q.crecord(r_configs=q.clist(cfgs),
+                         r_isecs=q.clist(q.cpair(q.cstr(i), q.copt(d, q.cz)) for i, d in sorted(c["ivs"].items())),
+                         r_steps=q.clist(steps), r_impl=q.clist(impl))
+
+    def key(self, c, r):
+        if len({json.dumps(x, sort_keys=True) for x in c["configs"]}) < 2:
+            return None
+        return super().key(c, r)
+
+    def shrink(self, c):
+        for k, ph in enumerate(c["phases"]):
+            for j in range(len(ph)):
+                yield {**c, "phases": c["phases"][:k] + [ph[:j] + ph[j + 1:]] + c["phases"][k + 1:]}
+
+
+STREAMS = [IntegerStream(), DatetimeStream(), ReinitStream()]
+
 
 META = {
     "level_text": ("Coq theorems over Model/PointAlg.v, for all point/interval strings: IntegerPoint __cmp__ and ==,<,<=,>,>= are "
@@ -735,7 +1017,12 @@ META = {
                    "(p+i)-i = p with p+i at instant+d) proved for every calendar/format satisfying iso_calendar_ok (positive "
                    "resolution; dump-then-parse is the identity on the format's grid). Both models are tied to the real classes "
                    "by differential runs compared inside Coq; the datetime run uses an independent calendar implementation "
-                   "for the instants and dumps (4 calendars, 6 time zones, expanded years, second-resolution format)."),
+                   "for the instants and dumps (4 calendars, 6 time zones, expanded years, second-resolution format). "
+                   "Several configurations in one process: with the lru_caches of ISO8601Point modelled, c18_reinit_consistent proves "
+                   "that every answer in every history of init()s and operations is a function of (configuration in force, operands) "
+                   "only, provided the cache key determines the configuration; refuted for the key as coded (calendar only) and "
+                   "reproduced on the real class (open finding); the reinit stream runs such histories in one process against the "
+                   "faithful model and the per-configuration reference."),
     "level_note": ("Full proofs for the integer classes (string level, via Coq's DecimalString round trip). For datetime the "
                    "calendar (metomi.isodatetime parse/dump/duration arithmetic) is abstract: iso_calendar_ok and the shape of "
                    "dstd/dadd/dsub (dump of the floored instant) are assumptions validated by sampling, not proved. Domain "
